@@ -1,4 +1,5 @@
 """C39 - overlapping IP pools resolve to one allocatable pool per address (kube-controllers ippool controller)."""
+import copy
 import ipaddress
 
 from vlib import pipeline
@@ -147,10 +148,14 @@ def selftest(ctx):
                 e["err"] = "injected"
                 return evs
 
-    return pipeline.corruption_selftest(ctx, P, [
+    # corruption_selftest hands out shallow copies: work on deep copies so that corruptions stay independent
+    def deep(fn):
+        return lambda evs: fn(copy.deepcopy(evs))
+
+    return pipeline.corruption_selftest(ctx, P, [(n, deep(f)) for n, f in [
         ("second_allocatable", second_allocatable), ("displaced", displaced), ("unmasked", unmasked),
         ("finalizer_lost", finalizer_lost), ("finalized_with_blocks", finalized_with_blocks),
-        ("drop_delete", drop_delete), ("failed_reconcile", failed_reconcile)],
+        ("drop_delete", drop_delete), ("failed_reconcile", failed_reconcile)]],
         n_random=60)
 
 
